@@ -420,7 +420,18 @@ def _d5(chk, fb):
             ct = render(f.nodes[iff["cond"]]) if iff is not None else ""
             idx = render(f.args(r)[0])
             construct = "order-statistic:%s[%s]" % (vec, idx)
-            if "size() == 1" in ct:
+            sub_ = local_inits(f)
+
+            def single(facts, vec=vec):
+                for tx, tr, nd in facts:
+                    t2 = render(nd, sub_).replace(" ", "")
+                    if t2 in ("(%s.size()==1)" % vec, "(1==%s.size())" % vec) and tr is True:
+                        return True
+                    if t2 in ("(%s.size()!=1)" % vec,) and tr is False:
+                        return True
+                return False
+            g1, _p = e1.guarded_by(cfg, cfg.stmt_block(r), single)
+            if "size() == 1" in ct or g1:
                 chk.proved("D5", f.key, construct, f.loc(r), "single element")
                 continue
             if any(cfg.dominates(cfg.stmt_block(s_), cfg.stmt_block(r)) and (cfg.stmt_block(s_) != cfg.stmt_block(r) or e1.earlier_in_block(cfg, s_, r)) for s_ in full):
